@@ -24,6 +24,7 @@ import NomtModel.Driver.CachesMode
 import NomtModel.Driver.ExtRangeMode
 import NomtModel.Driver.OpenPathMode
 import NomtModel.Driver.BtTreeMode
+import NomtModel.Driver.IoPoolMode
 /-!
 `nomt_model`: the executable Lean model behind a line protocol.
 First argument selects the sub-protocol; stdin → stdout, one output line per input line.
@@ -67,4 +68,5 @@ def main (args : List String) : IO UInt32 := do
   | ["extrange"] => loop stdin stdout extrangeStep {}; return 0
   | ["openpath"] => loop stdin stdout openpathStep (); return 0
   | ["bttree"] => loop stdin stdout BtD.btStep {}; return 0
+  | ["iopool"] => loop stdin stdout iopoolStep {}; return 0
   | _ => IO.eprintln "usage: nomt_model <core|...>"; return 2
